@@ -253,8 +253,8 @@ def main():
                 CellBoundaryEventHandler.send_event_time, CellBoundaryEventHandler.send_out_state,
                 cellsys.CuboidPeriodicCells.position_to_cell, cellsys.CuboidPeriodicCells.neighbor_cell)
     if chk.thorough:
-        # (three units on the 4 x 5 grid did not finish in 100 minutes on 16 cores: they are explored on the 3 x 3 grid)
-        grids = [((1.0,), (6,), 1, (2, 3, 4)), ((1.0, 2.0), (4, 5), 1, (2,)), ((1.0, 1.0), (3, 3), 1, (2, 3))]
+        # (three units on a 2-D grid did not finish in 100 minutes on 16 cores -- 4 x 5 -- resp. 65 minutes -- 3 x 3)
+        grids = [((1.0,), (6,), 1, (2, 3, 4)), ((1.0, 2.0), (4, 5), 1, (2,)), ((1.0, 1.0), (3, 3), 1, (2,))]
     else:
         grids = [((1.0,), (6,), 1, (2, 3)), ((1.0, 2.0), (4, 5), 1, (2,))]
     chk.bound(grids=["%s / %s cells, N in %s" % (list(l), list(p), ns) for l, p, k, ns in grids],
@@ -271,7 +271,8 @@ def main():
         for n in ns:
             for cap in (1, 2, 0):
                 for cf in (False, True):
-                    if cf and not chk.thorough and (len(lengths) > 1 or n > 2):
+                    if cf and (len(lengths) > 1 or (n > 2 and not chk.thorough)):
+                        # (charge filter on a 2-D grid: a single task ran for more than 25 minutes)
                         continue
                     for a in range(n):
                         for ev in ("move", "boundary", "lift"):
